@@ -364,6 +364,10 @@ impl AuthorisationService {
 
                 let mut valid_edges = Vec::new();
                 for (edge, entity_name) in edges {
+                    if is_authorisation_entity(&entity_name) {
+                        invalid.push(edge.src);
+                        continue;
+                    }
                     if room.can(
                         &edge.verifying_key,
                         &entity_name,
@@ -428,6 +432,20 @@ impl AuthorisationService {
             .blocking_send(msg)
             .map_err(|e| Error::ChannelSend(e.to_string()))
     }
+}
+
+///
+/// the entities that define the rooms: they are only modified by room mutations and room synchronisation,
+/// never by regular mutations, deletions or data synchronisation
+///
+fn is_authorisation_entity(entity_name: &str) -> bool {
+    matches!(
+        entity_name,
+        system_entities::ROOM_ENT
+            | system_entities::AUTHORISATION_ENT
+            | system_entities::ENTITY_RIGHT_ENT
+            | system_entities::USER_AUTH_ENT
+    )
 }
 
 pub struct RoomAuthorisations {
@@ -1135,6 +1153,12 @@ impl RoomAuthorisations {
             None => return false,
         };
 
+        if let Some(entity_name) = &node_to_insert.entity_name {
+            if is_authorisation_entity(entity_name) {
+                return false; //room definitions are synchronised separately
+            }
+        }
+
         match bincode::serialized_size(node) {
             Ok(size) => {
                 if size > self.max_node_size {
@@ -1233,6 +1257,9 @@ impl RoomAuthorisations {
                 continue;
             };
             let entity_name = &deletion.entity_name.clone().unwrap();
+            if is_authorisation_entity(entity_name) {
+                continue;
+            }
 
             let room = &deletion.room_id;
             let room = self.rooms.get(room);
@@ -1286,6 +1313,9 @@ impl RoomAuthorisations {
                 continue;
             };
             let entity_name = &deletion.entity_name.clone().unwrap();
+            if is_authorisation_entity(entity_name) {
+                continue;
+            }
 
             let room = &deletion.room_id;
             let room = self.rooms.get(room);
